@@ -847,7 +847,32 @@ class Payloads:
         self.pid = 1
 
     def ser(self, msg) -> bytes:
-        return bytes(self.impl.serializer.serialize(msg))
+        d = bytes(self.impl.serializer.serialize(msg))
+        if d and d[0] & 0x80:
+            # the datagram a peer would send is built independently of the encoder under test: the un-zero-coded serialization,
+            # zero-coded here by a plain reference encoder (canonical form), appended acks left as they are
+            flags = msg.send_flags
+            try:
+                msg.send_flags = flags & ~0x80
+                p = bytes(self.impl.serializer.serialize(msg))
+            finally:
+                msg.send_flags = flags
+            nacks = (p[-1] * 4 + 1) if p[0] & 0x10 else 0
+            body = p[6:len(p) - nacks]
+            out = bytearray()
+            i = 0
+            while i < len(body):
+                if body[i] != 0:
+                    out.append(body[i])
+                    i += 1
+                    continue
+                j = i
+                while j < len(body) and body[j] == 0 and j - i < 255:
+                    j += 1
+                out += bytes([0, j - i])
+                i = j
+            return bytes([p[0] | 0x80]) + p[1:6] + bytes(out) + p[len(p) - nacks:]
+        return d
 
     def _hdr(self, kw):
         rng = self.rng
@@ -899,9 +924,15 @@ class Payloads:
     def chat_out(self) -> bytes:
         UUID = self.impl.UUID
         txt = "".join(self.rng.choice("abc \x00xyz") for _ in range(self.rng.randrange(0, 12)))
+        kw = {}
+        if self.rng.random() < 0.15:
+            # a body the proxy parses and re-encodes, zero-coded, with a zero run at the run-length boundaries of the code
+            txt = self.rng.choice(("", "a")) + "\x00" * self.rng.choice((254, 255, 256, 509, 510, 511, 765)) + self.rng.choice(("", "b"))
+            kw = self._hdr({})
+            kw["flags"] |= 0x80
         msg = self.Message("ChatFromViewer", self.Block("AgentData", AgentID=UUID(int=77), SessionID=UUID(int=5)),
                            self.Block("ChatData", Message=txt, Type=1, Channel=self.rng.randrange(0, 3)),
-                           **self._hdr({}))
+                           **(kw or self._hdr({})))
         return self.ser(msg)
 
     def chat_in(self) -> bytes:
@@ -910,6 +941,9 @@ class Payloads:
                            self.Block("ChatData", FromName="obj", SourceID=UUID(int=9), OwnerID=UUID(int=9),
                                       SourceType=1, ChatType=1, Audible=1, Position=(1.0, 2.0, 3.0),
                                       Message="m%d" % self.rng.randrange(100)), **self._hdr({}))
+        if self.rng.random() < 0.15:
+            msg["ChatData"][0]["Message"] = "m" + "\x00" * self.rng.choice((254, 255, 256, 509, 510, 511)) + "z"
+            msg.send_flags |= 0x80
         return self.ser(msg)
 
     def packet_ack(self, n) -> bytes:
